@@ -242,7 +242,8 @@ def one_cli(idx, line):
         env["STUB_LOG"] = os.path.join(d, "log")
         env["STUB_HEADER"] = os.path.join(d, "canned.h")
         open(os.path.join(d, "cb.toml"), "w").write("")
-        before = set(os.listdir(d)) | {"log"}
+        snap = lambda: {f: open(os.path.join(d, f), "rb").read() for f in os.listdir(d) if os.path.isfile(os.path.join(d, f)) and f != "log"}
+        before = snap()
         pre0 = argv[:argv.index("--")] if "--" in argv else argv
         cfgs = [b for a, b in zip(pre0, pre0[1:]) if a in ("-c", "--config")]
         p = subprocess.run([_built["bin"]] + argv, cwd=d, capture_output=True, text=True, env=env, timeout=60)
@@ -260,7 +261,8 @@ def one_cli(idx, line):
             if passed[:3] != ["run", "nightly", "cbindgen"]:
                 fails.append("nightly-invocation:%s" % "_".join(passed[:3]))
             passed = passed[3:]
-        written = sorted(f for f in os.listdir(d) if f not in before)
+        after = snap()
+        written = sorted(f for f in after if before.get(f) != after[f])
         # which configuration was applied: the prefix shows up in no wrapper here, so read it off by processing the canned header ourselves
         cfg_used = None
         pre = argv[:argv.index("--")] if "--" in argv else argv
